@@ -1,6 +1,7 @@
 LC_HEADER = ('From LC Require Import Lib.Bytes Model.MountInfo Model.FsTree Model.Kernel Model.Layers Model.Args Cases.LC Cases.C15.\n'
              'Open Scope string_scope.\n')
 PROP = dict(
+    pidns=True,
     go='c15', n_quick=200, n_thorough=2000,
     coq_header=LC_HEADER,
     case_type='C15.case', verdict='C15.verdict',
